@@ -25,6 +25,8 @@ pub enum Step {
     Data(u16),
     /// blocking: ErrorKind::Interrupted; async: Poll::Pending (after waking the waker)
     Stall,
+    /// k stalls in a row (a signal storm / a source that stays pending for many polls)
+    StallRun(u16),
 }
 
 #[derive(Debug, Clone, Hash, PartialEq, Eq, Serialize, Deserialize)]
@@ -57,20 +59,31 @@ pub struct Source {
     sched: Schedule,
     next: usize,
     stalled_last: bool,
+    run_left: u32,
     trace: Rc<RefCell<Trace>>,
 }
 impl Source {
     pub fn new(data: &[u8], sched: &Schedule, trace: Rc<RefCell<Trace>>) -> Self {
-        Source { data: data.to_vec(), pos: 0, sched: sched.clone(), next: 0, stalled_last: false, trace }
+        Source { data: data.to_vec(), pos: 0, sched: sched.clone(), next: 0, stalled_last: false, run_left: 0, trace }
     }
     /// `None` = stall now, `Some(n)` = deliver n bytes into a buffer of `want` bytes
     fn step(&mut self, want: usize) -> Option<usize> {
         let remaining = self.data.len() - self.pos;
+        if self.run_left > 0 {
+            self.run_left -= 1;
+            self.trace.borrow_mut().stalls += 1;
+            return None;
+        }
         let k = if self.next < self.sched.steps.len() {
             let s = self.sched.steps[self.next];
             self.next += 1;
             match s {
                 Step::Stall => {
+                    self.trace.borrow_mut().stalls += 1;
+                    return None;
+                }
+                Step::StallRun(n) => {
+                    self.run_left = (n as u32).saturating_sub(1);
                     self.trace.borrow_mut().stalls += 1;
                     return None;
                 }
@@ -269,7 +282,8 @@ pub fn drive_async(stream: &[u8], storage: bool, sched: &Schedule, reader_kind: 
     let mut out = vec![];
     let bound = stream.len() / 4 + 3;
     // every poll either delivers >= 1 byte, reaches end of input, or is one of the scheduled stalls
-    let budget = 2 * sched.steps.len() + 2 * stream.len() + 64;
+    let runs: usize = sched.steps.iter().map(|s| if let Step::StallRun(n) = s { *n as usize } else { 0 }).sum();
+    let budget = 2 * sched.steps.len() + runs + 2 * stream.len() + 64;
     let res = guard(|| {
         let mut reader = match capacities(reader_kind, stream, storage) {
             None => DltStreamReader::new(src, storage),
@@ -433,6 +447,7 @@ pub fn schedule() -> BoxedStrategy<Schedule> {
         3 => (1u16..64).prop_map(Step::Data),
         1 => prop::sample::select(vec![1u16, 3, 4, 15, 16, 17, 19, 20, 21, 4096, 65535]).prop_map(Step::Data),
         3 => Just(Step::Stall),
+        1 => prop_oneof![2 => 2u16..20, 2 => 20u16..300, 1 => prop::sample::select(vec![63u16, 64, 65, 127, 128, 129, 255, 256, 257, 1000, 5000])].prop_map(Step::StallRun),
     ];
     (vec(step, 0..60), prop_oneof![2 => Just(0u16), 2 => 1u16..=64, 1 => prop::sample::select(vec![1u16, 2, 3, 5, 7, 19, 21, 1000])], prop::bool::weighted(0.25))
         .prop_map(|(steps, then_chunk, then_stall)| Schedule { steps, then_chunk, then_stall })
